@@ -318,8 +318,9 @@ class Check:
         }
         with open(os.path.join(EVID, self.prop + ".json"), "w") as fh:
             json.dump(ev, fh, indent=1)
-        if self.engine_errors:
-            # an engine error is never reported as a VIOLATION; it makes the run fail loudly instead
+        if self.engine_errors and rc == 0:
+            # an engine error is never reported as a VIOLATION; it makes the run fail loudly instead (exit 2). When the run
+            # also found violations, those decide the exit code (1) and the engine errors stay on stderr as notes.
             return 2
         log("%s %s: %s in %.1fs" % (self.prop, self.tier, "VIOLATION" if rc else "ok", time.time() - self.t0))
         return rc
